@@ -135,6 +135,7 @@ def run(ctx, chk):
     chk.rule("C18.R4", "frame: only AL (and the 0Ah buffer) changes", floor=20)
     chk.rule("C18.R5", "services address memory through the documented registers", floor=3)
     chk.rule("C18.R6", "interrupt numbers agree between assembler, interpreter and driver", floor=2)
+    chk.rule("C18.R7", "machine bytes are written as the characters with their codes (`byte as char`), never decoded or printed as numbers", floor=2)
     chk.assumptions += ["read_line appends at most one line to the buffer and returns its byte count",
                         "register values are arbitrary 16-bit words; stdin content is arbitrary"]
     binm = ctx.facts.mir("bin")
@@ -478,3 +479,52 @@ def run(ctx, chk):
                 chk.violation("C18.R6", "assembler", f"int-set:{sorted(ints)}", f"assembler accepts int {sorted(ints)}", ctx.gram("preprocessor").g["file"])
         except Exception as e:  # noqa
             chk.undecided_("C18.R6", "assembler:int-set", f"{type(e).__name__}: {e}")
+    written_characters_rule(ctx, chk, fns)
+
+
+DECODERS = re.compile(r"from_utf8|from_utf16|from_utf8_lossy|char::from_u32|char::from_digit|to_ascii|escape_")
+
+
+def written_characters_rule(ctx, chk, fns):
+    """R7 (value flow on terms): every value a console service formats for output and that comes from the machine
+    (a memory byte, a byte register) must reach the formatter as `byte as char` -- one character per byte, code = byte.
+    A formatted value of integer type prints digits; a text obtained by decoding machine bytes (UTF-8/UTF-16 decoders)
+    merges or replaces bytes.  Formatted values that do not depend on the machine (I/O error texts) are not judged;
+    a `char` whose origin is not visible in the function (closure parameter, helper result) is undecided."""
+    from symterm import SymFlow, subterms, strip, show
+    from driver_rules import local_closure
+    P = ctx.program
+    for n, f in fns.items():
+        for g in local_closure(P, f):
+            if not g["name"].startswith("driver::interrupts::"):
+                continue
+            F = SymFlow(g)
+            entry, _, _ = F.run(0)
+            is_closure = "{closure" in g["name"]
+            for bi, t in M.calls_in(g):
+                d = t[1].get("def") or ""
+                if not re.search(r"Argument::<'_>::new_\w+$|Argument::new_\w+$", d) or bi not in entry or not t[2]:
+                    continue
+                a = F.call_args(entry[bi], bi)[0]
+                core = strip(a)
+                ty = (t[2][0][1].get("ty") or g["locals"][t[2][0][1]["l"]]["ty"] or "").lstrip("&").strip() if t[2][0][0] in ("copy", "move") else "?"
+                subs = list(subterms(a))
+                machine = any((x[0] == "call" and re.search(r"get_byte_reg$|get_word_reg$", x[1])) or
+                              (x[0] == "proj" and x[2][0] == "idx") or (x[0] == "init" and x[1] == 1) for x in subs)
+                from_input_err = any(x[0] == "call" and x[1].endswith("read_line") for x in subs) and not any(x[0] == "init" for x in subs)
+                unit = f"{g['name'].split('::', 2)[-1]}@bb{bi}"
+                where = f"{file_of(g)}:{g['blocks'][bi]['term']['line']}"
+                if from_input_err or not machine:
+                    continue
+                if core[0] == "cast" and core[1] == "char" and (
+                        (core[2][0] == "call" and core[2][1].endswith("get_byte_reg")) or (core[2][0] == "proj" and core[2][2][0] == "idx")):
+                    chk.ok("C18.R7", unit, f"writes ({show(core[2])[:60]}) as char")
+                elif M.int_type(ty) and ty not in ("char", "bool"):
+                    chk.violation("C18.R7", n, f"byte-printed-as-number:{ty}", f"{g['name']} formats a machine value of type {ty}: its decimal digits are written instead of the character with that code", where)
+                elif any(x[0] == "call" and DECODERS.search(x[1]) for x in subs):
+                    dec = next(x[1] for x in subs if x[0] == "call" and DECODERS.search(x[1]))
+                    chk.violation("C18.R7", n, "bytes-decoded-not-mapped", f"{g['name']} writes the result of {dec.split('<')[0]} over machine bytes: multi-byte sequences are merged and ill-formed bytes replaced, "
+                                  "so the output is not one character per byte (the documented service writes exactly the bytes' characters)", where,
+                                  witness="memory bytes C3 A9 are written as one character U+00E9; a lone E9 as U+FFFD")
+                else:
+                    chk.undecided_("C18.R7", unit, f"formatted value of type {ty} whose origin is not a visible `byte as char`: {show(core)[:80]}")
